@@ -1120,7 +1120,9 @@ func (env *Zlisp) LeftBindingPower(sx Sexp) (int, error) {
 		return 0, nil
 	}
 
-	return 0, fmt.Errorf("LeftBindingPower: unhandled sx :%#v", sx)
+	// any other value (nil, a char, a uint64, ...) is an operand:
+	// it does not bind to the left and starts a new expression.
+	return 0, nil
 }
 
 func (p *Pratt) ShowCnodeStack() {
